@@ -66,6 +66,11 @@ class C20(Oracle):
                 for (f, x), (_, y) in zip(a[k], b[k]):
                     if not same(x, y):
                         return 'config.' + f, x, y
+            elif k == 'dtype':
+                # the cached format string may be re-spelled lazily in the notation the config names
+                # by now (get_dtype() refreshes it); what it DENOTES must not change
+                if not same(a[k], b[k]) and (parse_dtype(a[k]) is None or parse_dtype(a[k]) != parse_dtype(b[k])):
+                    return k, a[k], b[k]
             elif not same(a[k], b[k]):
                 return k, a[k], b[k]
         return None
@@ -132,6 +137,12 @@ class C20(Oracle):
                 if r is not None:
                     w.violation('C20', 'shared-' + r[0], st, r[1], culprit)
                     return
+        # -- a snapshot taken with np.array(x) is the caller's own array
+        if st.extra.get('export_aliases') is not None and st.outcome == 'ok':
+            w.violation('C20', 'aliases-caller-array', st,
+                        {'what': 'np.array(x) returned an array sharing memory with x', 'slot': st.extra['export_aliases']},
+                        culprit)
+            return
         # -- caller-owned containers
         ck = st.extra.get('container')
         if ck is not None and st.outcome == 'ok' and isinstance(w.containers[ck][0], np.ndarray):
@@ -526,6 +537,26 @@ class C04(Oracle):
             self.check_reset(w, st, culprit)
             return
         sto = st.store
+        if sto is not None and st.outcome == 'rejected' and sto.target == 'dest' and st.dest is not None and \
+                w.slots[st.dest].alive and st.kind != 'indexed' and st.extra.get('buffer_kept') and \
+                st.dest in st.pre and not st.nested and not st.extra.get('selfwrites') and \
+                'selfreset_at' not in st.extra:
+            # A non-indexed write replaces the value buffer when it stores.  The operation was rejected
+            # and the destination still holds the very buffer it had: nothing was stored, so no stored
+            # element can differ from its input - the inaccuracy flag must not have come up.  (Overflow
+            # and underflow are raised while the input is prepared, before the store, and are not judged
+            # here; neither is a write whose Fxp source carries the flag: the library hands that on
+            # while it reads the source.)
+            o = w.slots[st.dest].obj
+            src_has = sto.src is not None and sto.src in st.pre and \
+                bool(status_dict(st.pre[sto.src]['status']).get('inaccuracy'))
+            if isinstance(o.status, dict) and not src_has and \
+                    not status_dict(st.pre[st.dest]['status']).get('inaccuracy') and o.status.get('inaccuracy'):
+                w.violation('C04', 'flag-raised-without-write', st,
+                            {'slot': st.dest, 'flag': 'inaccuracy', 'what': 'operation rejected before anything was stored',
+                             'exception': st.exc, 'origin': w.slots[st.dest].origin}, culprit)
+                return
+            w.bump('c04_rejected_before_store_judged')
         if sto is None or st.outcome == 'rejected':
             return
         if sto.target == 'dest':
@@ -849,6 +880,8 @@ class C10(Oracle):
         if src not in allowed and w.slots[src].alive:
             now = w.snap_obj(w.slots[src].obj)
             for k in ('fmt', 'codes', 'status', 'cfg', 'n_int', 'upper', 'lower', 'precision', 'dtype'):
+                if k == 'dtype' and parse_dtype(sp[k]) is not None and parse_dtype(sp[k]) == parse_dtype(now[k]):
+                    continue
                 if not same(sp[k], now[k]):
                     w.violation('C10', 'source-changed', st,
                                 {'field': k, 'before': short(sp[k]), 'after': short(now[k]),
